@@ -96,8 +96,76 @@ def main():
                         chk.inconc("budget-or-no-verdict")
                         continue
                     split = classify_split(by_t)
-                    label = "+".join(tags) if tags else "untagged"
+                    # exact attribution: for each tracing whose outcome deviates from the source
+                    # semantics, the recorded deviation that reproduces it (aiken_ref.explain)
+                    labels = set()
+                    import run_c01
+
+                    exp = e["expected"][k]
+                    for t, run in runs.items():
+                        er = run["entries"][ei]
+                        if "results" not in er:
+                            continue
+                        got = er["results"][pos]
+                        same = (exp[0] == "abort" and by_t[t] == "abort") or (exp[0] == "ok" and by_t[t] == "ok:" + json.dumps(["con", "data", norm(exp[1])], sort_keys=True))
+                        if same:
+                            continue
+                        try:
+                            labels.add(run_c01.explain(seed, c["index"], n_args, opts, e["name"], k, t, got) or "unexplained")
+                        except Exception:
+                            labels.add("unexplained")
+                    label = "+".join(sorted(labels)) if labels else "unexplained"
                     chk.violation(f"C14|outcome-depends-on-tracing|{split}|{label}", {"stream": stream, "seed": seed, "module_index": c["index"], "source": c["src"], "entry": e["name"], "args": e["args"][k], "outcomes": by_t, "interpreter_expected": e["expected"][k]})
+    # hand-written tracing-sensitive templates: every construct whose lowering depends on the
+    # trace level (casts with and without error messages, `?`, `expect` on patterns, fail/todo
+    # with labels, traces in branches), each with arguments on both sides of its abort condition
+    I = lambda n: {"i": str(n)}
+    Bt = lambda hx: {"b": hx}
+    T, F_ = {"c": "1", "f": []}, {"c": "0", "f": []}
+    some = lambda x: {"c": "0", "f": [x]}
+    none = {"c": "1", "f": []}
+    templates = [
+        ("expect-cast-used-in-one-branch", "pub fn e(d: Data, b: Bool) -> Data {\n  expect v: Int = d\n  let r: Data = if b { v } else { 0 }\n  r\n}\n", [[I(1), T], [I(1), F_], [Bt("00"), T], [Bt("00"), F_]], "call-by-need-expect-cast"),
+        ("expect-cast-flows-back-to-data", "pub fn e(d: Data, b: Bool) -> Data {\n  expect v: ByteArray = d\n  let r: Data = [v]\n  r\n}\n", [[Bt("00"), T], [I(1), T], [{"l": []}, F_]], "F3_cast_cancel_expect"),
+        ("expect-cast-strictly-used", "pub fn e(d: Data, b: Bool) -> Data {\n  expect v: Int = d\n  let r: Data = v + 1\n  r\n}\n", [[I(1), T], [Bt("00"), T], [{"l": []}, F_]], None),
+        ("expect-option-pattern", "pub fn e(o: Option<Int>, b: Bool) -> Data {\n  expect Some(x) = o\n  let r: Data = if b { x } else { 0 }\n  r\n}\n", [[some(I(3)), T], [none, T], [none, F_]], None),
+        ("trace-if-false-in-and", "pub fn e(a: Int, b: Bool) -> Data {\n  let ok = (a > 0)? && b?\n  let r: Data = ok\n  r\n}\n", [[I(1), T], [I(0), T], [I(1), F_], [I(0), F_]], None),
+        ("trace-if-false-in-or", "pub fn e(a: Int, b: Bool) -> Data {\n  let ok = (a > 0)? || b?\n  let r: Data = ok\n  r\n}\n", [[I(1), T], [I(0), T], [I(1), F_], [I(0), F_]], None),
+        ("fail-with-label-in-branch", "pub fn e(a: Int, b: Bool) -> Data {\n  let r: Data = if b { fail @\"nope\" } else { a }\n  r\n}\n", [[I(1), T], [I(1), F_]], None),
+        ("todo-with-label-in-when", "pub fn e(o: Option<Int>, b: Bool) -> Data {\n  let r: Data = when o is {\n    Some(x) -> x\n    None -> todo @\"later\"\n  }\n  r\n}\n", [[some(I(3)), T], [none, T]], None),
+        ("trace-in-branches", "pub fn e(a: Int, b: Bool) -> Data {\n  let r: Data = if b {\n    trace @\"yes\"\n    a + 1\n  } else {\n    trace @\"no\": a\n    a - 1\n  }\n  r\n}\n", [[I(1), T], [I(1), F_]], None),
+        ("expect-bool-with-trace", "pub fn e(a: Int, b: Bool) -> Data {\n  expect (a > 0)?\n  expect b\n  let r: Data = a\n  r\n}\n", [[I(1), T], [I(0), T], [I(1), F_]], None),
+        ("expect-list-pattern", "pub fn e(xs: List<Int>, b: Bool) -> Data {\n  expect [x, ..] = xs\n  let r: Data = if b { x } else { 7 }\n  r\n}\n", [[{"l": [I(5)]}, T], [{"l": []}, T], [{"l": []}, F_]], None),
+        ("expect-record-cast", "pub type P { a: Int, b: ByteArray }\n\npub fn e(d: Data, b: Bool) -> Data {\n  expect p: P = d\n  let r: Data = if b { p.a } else { 0 }\n  r\n}\n", [[{"c": "0", "f": [I(1), Bt("00")]}, T], [{"c": "0", "f": [I(1)]}, F_], [{"c": "1", "f": [I(1), Bt("00")]}, F_], [I(0), F_]], None),
+        ("soft-cast-if-is", "pub fn e(d: Data, b: Bool) -> Data {\n  let r: Data = if d is v: Int { v + 1 } else { 0 }\n  r\n}\n", [[I(1), T], [Bt("00"), T]], None),
+    ]
+    tjobs = []
+    for ti, (name, src, argsets, known_label) in enumerate(templates):
+        tjobs.append({"id": ti, "op": "compile_eval", "plutus": "v3", "modules": [{"name": "m", "kind": "lib", "src": src}], "tracings": A.ALL_TRACINGS, "infer_tracing": "same", "detailed": False, "entries": [{"kind": "fn", "module": "m", "name": "e", "args": argsets}]})
+    tres = A.run(tjobs, timeout=300)
+    for ti, (name, src, argsets, known_label) in enumerate(templates):
+        r = tres.get(ti, {})
+        if "runs" not in r:
+            chk.inconc("template-not-run")
+            continue
+        runs = {run["tracing"]: run for run in r["runs"]}
+        if any("rejected" in run for run in runs.values()):
+            if not all("rejected" in run for run in runs.values()):
+                chk.violation("C14|accepted-under-some-tracings-only", {"template": name, "source": src})
+            else:
+                chk.inconc("template-rejected:" + name)
+            continue
+        chk.count("templates_under_9_tracings")
+        for pos, args in enumerate(argsets):
+            by_t = {}
+            for t, run in runs.items():
+                er = run["entries"][0]
+                by_t[t] = okey(er["results"][pos]) if "results" in er else "compile-panic"
+            if len(set(by_t.values())) == 1:
+                chk.held(h(["template", name, pos]))
+                chk.count("template_cases_identical_under_9_tracings")
+            else:
+                chk.violation(f"C14|outcome-depends-on-tracing|{classify_split(by_t)}|{known_label or 'template:' + name}", {"template": name, "source": src, "args": args, "outcomes": by_t})
     # harvested unit tests: pass/fail verdict under the nine settings
     jobs, meta = A.jobs_for_harvested(A.ALL_TRACINGS, detailed=True, limit=None if not quick else 200)
     res = A.run(jobs, timeout=600)
